@@ -21,7 +21,7 @@ CFG = dict(
          "harness-side AST interpreter returning Box<dyn TrustedLen> and mirrored by Model.Iter.build. At every point "
          "of every consumption script the harness records size_hint(), the number of items a fresh copy still yields "
          "by plain safe iteration, and the item; compared exactly with the model. non-trivial = non-empty input",
-    theorem_hint="Props/C09.v: C09_hint_exact, C09_hint_exact_pipeline, C09_len_preserved_*, C09_collect_safe",
+    theorem_hint="Props/C09.v: C09_hint_exact_front, C09_hint_exact_both_ends, C09_hint_exact_pipeline, C09_len_preserved_*, C09_collect_safe",
     level_text="Proof: theorems (Props/C09.v, axiom-free) about an executable Gallina model of iterator states "
                "(std's Chain/Zip/Take/Skip/Map/Rev/Enumerate/RepeatN/Range, TrustIter with the repaired shrinking "
                "length, Linspace) and of the library's adaptors as constructors of such states with their guards: "
